@@ -227,6 +227,10 @@ def _kwoargs_start(start, _kwoargs, func, *args, **kwargs):
     kwoarg_names = set(_kwoargs)
     found = False
     sig = _specifiers.forged_signature(func, auto=False).parameters.values()
+    if 'original' in kwargs:
+        # re-applied while binding, which consumed the first parameter:
+        # it may have been one of the explicit names
+        kwoarg_names.intersection_update(param.name for param in sig)
     for param in sig:
         if param.kind == param.POSITIONAL_OR_KEYWORD:
             if found or param.name == start:
@@ -286,6 +290,10 @@ def _posoargs_end(end, _posoargs, func, *args, **kwargs):
     posoarg_names = set(_posoargs)
     found = False
     sig = _specifiers.forged_signature(func, auto=False).parameters.values()
+    if 'original' in kwargs:
+        # re-applied while binding, which consumed the first parameter:
+        # it may have been one of the explicit names
+        posoarg_names.intersection_update(param.name for param in sig)
     for param in sig:
         if param.kind == param.POSITIONAL_OR_KEYWORD:
             if not found:
@@ -298,7 +306,8 @@ def _posoargs_end(end, _posoargs, func, *args, **kwargs):
         # re-applied while binding: the end parameter was already made
         # positional-only by another modifier of the stack, or it was the
         # parameter consumed by the binding
-        posoarg_names = set(_posoargs)
+        posoarg_names = set(_posoargs).intersection(
+            param.name for param in sig)
         found = True
     if not found:
         raise ValueError('{0!r} not found in {1.__name__}{2}'.format(
